@@ -44,6 +44,11 @@ PINNED = {
         [("setenv", "absA"), ("conv", "local", "main"), ("setenv", "colonB"), ("wait", 1250), ("conv", "local", "main"), ("setenv", "absA"), ("wait", 1250), ("conv", "local", "main"), ("conv", "utc", "new")],
         [("setenv", "absA"), ("conv", "utc", "main"), ("setenv", "colonB"), ("wait", 1000), ("conv", "utc", "main"), ("wait", 200), ("conv", "local", "main"), ("wait", 1250), ("conv", "local", "main")],
         [("setenv", "rule"), ("conv", "local", "main"), ("setenv", "name"), ("conv", "local", "new"), ("wait", 200), ("conv", "utc", "main"), ("wait", 1250), ("conv", "utc", "main"), ("setenv", "badfile"), ("conv", "utc", "new")],
+        # every kind of TZ value once, each read by a fresh thread (the resolution order of the statement, one clause at a time)
+        [("setenv", "colonName"), ("conv", "utc", "new"), ("setenv", "name"), ("conv", "local", "new"), ("setenv", "fixedF"), ("conv", "utc", "new"), ("setenv", "colonB"), ("conv", "local", "new"),
+         ("setenv", "absA"), ("conv", "utc", "new"), ("setenv", "rule"), ("conv", "utc", "new")],
+        [("setenv", "empty"), ("conv", "utc", "new"), ("setenv", "garbage"), ("conv", "local", "new"), ("setenv", "colonMissing"), ("conv", "utc", "new"), ("setenv", "missing"), ("conv", "utc", "new"),
+         ("setenv", "badfile"), ("conv", "local", "new"), ("setenv", "colonRule"), ("conv", "utc", "new"), ("setenv", "colonName"), ("conv", "local", "new")],
     ],
 }
 # documented in the shape of GEN entries; they are run by `extra` (a history is a process, not a step of a replayer),
